@@ -252,6 +252,13 @@ def run_shard(shard):
                     padded = bytes(raw) + b"\x00" * (w - len(raw))
                     if M.ref_decode(row, padded) != s or cls.raw_to_value(bytes(raw)) != s or cls.raw_to_value(padded) != s:
                         add_violation(res, f"C11:inverse-roundtrip:{key[1]}", f"{key[1]}: {s!r} does not read back", case)
+                    # the raw bytes are written over whatever the field held: a shorter string must carry its terminator
+                    for stale in (b"Z", b"\xff"):
+                        over = bytes(raw) + stale * (w - len(raw))
+                        if M.ref_decode(row, over) != s or cls.raw_to_value(over) != s:
+                            add_violation(res, f"C11:inverse-not-terminated:{key[1]}", f"{key[1]}.value_to_raw({s!r}) -> {bytes(raw)!r}: written over a field "
+                                          f"holding {stale!r} bytes it reads back as {M.ref_decode(row, over)!r}", case)
+                            break
                 for bad in ("x" * (w + 1),):
                     try:
                         cls.value_to_raw(bad)
